@@ -1,32 +1,32 @@
 #!/bin/bash
-# Re-run the registered quick check of every kept seeded change against a scratch worktree of /repo with that change applied.
-# Expected: exit 1 (VIOLATION) for every seed; the table is written to /verif/seeded/RESULTS.txt.  Scratch lives under /var/tmp and is removed.
+# Re-run the registered quick check of kept seeded changes against a scratch worktree of /repo's HEAD with the change applied.
+# usage: tools/seedcheck.sh [seed-name ...]   (default: all).  Expected: exit 1 with >= 1 VIOLATION line for every seed
+# (seeds whose meta.json says "not caught" are expected to give exit 0).
+# Results are merged into /verif/seeded/RESULTS.txt (one line per seed).  Scratch lives under /var/tmp and is removed.
 cd /verif || exit 2
 out=/verif/seeded/RESULTS.txt
-: > "$out.tmp"
-only="$1"
-for d in /verif/seeded/*/; do
-  name=$(basename "$d")
-  [ -n "$only" ] && [ "$only" != "$name" ] && continue
+touch "$out"
+names="$@"
+[ -z "$names" ] && names=$(ls -d /verif/seeded/*/ | xargs -n1 basename)
+for name in $names; do
+  d=/verif/seeded/$name
   id=${name%%-*}
   wt=/var/tmp/seedwt-$name
-  rm -rf "$wt"; git -C /repo worktree prune
-  git -C /repo worktree add -q --detach "$wt" HEAD || { echo "$name worktree-failed" >> "$out.tmp"; continue; }
-  if ! git -C "$wt" apply "$d/patch.diff" 2>/dev/null; then
-    if ! git -C "$wt" apply --3way "$d/patch.diff" 2>/dev/null; then
-      echo "$name patch-does-not-apply-to-current-HEAD" >> "$out.tmp"
-      git -C /repo worktree remove --force "$wt"; continue
-    fi
+  git -C /repo worktree remove --force "$wt" 2>/dev/null; rm -rf "$wt"; git -C /repo worktree prune
+  line=""
+  if ! git -C /repo worktree add -q --detach "$wt" HEAD; then
+    line="$name worktree-failed"
+  elif ! git -C "$wt" apply "$d/patch.diff" 2>/dev/null && ! git -C "$wt" apply --3way "$d/patch.diff" 2>/dev/null; then
+    line="$name patch-does-not-apply-to-current-HEAD"
+  else
+    t0=$(date +%s)
+    VERIF_REPO="$wt" ./check "$id" quick > "/var/tmp/seedrun-$name.log" 2>&1
+    rc=$?
+    nv=$(grep -c '^VIOLATION' "/var/tmp/seedrun-$name.log")
+    line="$name check=$id exit=$rc violations=$nv seconds=$(( $(date +%s) - t0 ))"
   fi
-  t0=$(date +%s)
-  VERIF_REPO="$wt" ./check "$id" quick > "/var/tmp/seedrun-$name.log" 2>&1
-  rc=$?
-  t1=$(date +%s)
-  nv=$(grep -c '^VIOLATION' "/var/tmp/seedrun-$name.log")
-  echo "$name check=$id exit=$rc violations=$nv seconds=$((t1-t0))" >> "$out.tmp"
-  git -C /repo worktree remove --force "$wt"
-  rm -rf /var/tmp/pyunicorn-verif-alt-evidence
+  git -C /repo worktree remove --force "$wt" 2>/dev/null
+  grep -v "^$name " "$out" > "$out.new"; echo "$line" >> "$out.new"; sort "$out.new" > "$out"; rm -f "$out.new"
+  echo "$line"
 done
 git -C /repo worktree prune
-mv "$out.tmp" "$out"
-cat "$out"
